@@ -1,8 +1,10 @@
 //! seqmc: bounded-exhaustive explorers over the sequential code of dinfuehr/dora.
 //! Every subcommand enumerates a declared finite space completely, evaluates its oracle on every
 //! element on the real crates of /repo, and prints one JSON report on stdout.
+mod codec;
 mod files;
 mod names;
+mod pkgcodec;
 mod pool;
 mod sema;
 mod text;
@@ -157,6 +159,9 @@ fn main() {
         "sema" => sema::run(&args),
         "verdicts" => sema::verdicts(&args),
         "names" => names::run(&args),
+        "codec" => codec::run(&args),
+        "pkg" => pkgcodec::run_pkg(&args),
+        "damage" => pkgcodec::run_damage(&args),
         "semadump" => {
             let t = std::fs::read_to_string(args.get("file", "/dev/stdin")).unwrap();
             let mut rep = Report::default();
